@@ -40,6 +40,8 @@ def model_check(rep: Report, name: str, depth: int, timeout=900):
     names = {e["op"]["op"]["name"] for e in g.edges}
     need = {"next", "seek", "set_frame_duration", "set_padding", "set_render_args",
             "set_render_size", "close", "drop", "next_fails", "next_reclose"}
+    if cfg.endswith("_A.cfg"):
+        need |= {"resize"}
     if not need <= names:
         raise tlc.MachineryError(f"vacuous model: actions never taken in {cfg}: {need - names}")
     return g
